@@ -130,7 +130,8 @@ def _f_case(cls_name, n, phased):
 def _f_run(ctx, phased):
     nmax = 3000 if ctx.tier == "quick" else 60000
     ctx.rule = ("exhaustive over ntaxa = 1..%d (copy number 2*ntaxa): loci with 0, 1, all-but-one and all copies of the allele; "
-                "afreq exactly 0/1 iff fixed, strictly inside otherwise, afixed/apoly flags, tafreq extremes" % nmax)
+                "afreq exactly 0/1 iff fixed, strictly inside otherwise, afixed/apoly flags, tafreq extremes; plus sparse large populations "
+                "up to 2e6 taxa (thorough 6e7)" % nmax)
     name = "DensePhasedGenotypeMatrix" if phased else "DenseGenotypeMatrix"
     for n in range(1, nmax + 1):
         msg = _f_case(name, n, phased)
@@ -139,17 +140,27 @@ def _f_run(ctx, phased):
             ctx.fail_input("F:%s:frequency-exactness" % name, dict(ntaxa=n, phased=phased), cls="afreq-float-exactness", message=msg)
             if len(ctx.failures) >= 3:
                 break
+    # beyond the exhaustive range: sparse very large populations, where a frequency one copy away from 0 or 1 is within
+    # 1e-5 (and, in the thorough tier, within 1e-8) of it -- tolerance-based comparisons only differ there
+    big = [10 ** 4, 49951, 65537, 10 ** 5, 2 ** 20 - 1, 2 * 10 ** 6] + ([6 * 10 ** 7] if ctx.tier == "thorough" else [])
+    for n in big:
+        if len(ctx.failures) >= 3:
+            break
+        msg = _f_case(name, n, phased)
+        ctx.case(n, nontrivial=True, sample=dict(ntaxa=n) if n == 49951 else None)
+        if msg:
+            ctx.fail_input("F:%s:frequency-exactness" % name, dict(ntaxa=n, phased=phased), cls="afreq-float-exactness", message=msg)
     ctx.exhaustive = True
 
 
 @unit(P, "F[DenseGenotypeMatrix frequency exactness, all copy numbers]", "F", bounded=True,
-      note="bounded: exhaustive native enumeration of ntaxa <= 3000 (quick) / 60000 (thorough), diploid")
+      note="bounded: exhaustive native enumeration of ntaxa <= 3000 (quick) / 60000 (thorough), diploid, plus sparse populations up to 2e6 (6e7) taxa")
 def u_f_unphased(ctx):
     _f_run(ctx, False)
 
 
 @unit(P, "F[DensePhasedGenotypeMatrix frequency exactness, all copy numbers]", "F", bounded=True,
-      note="bounded: exhaustive native enumeration of ntaxa <= 3000 (quick) / 60000 (thorough), diploid")
+      note="bounded: exhaustive native enumeration of ntaxa <= 3000 (quick) / 60000 (thorough), diploid, plus sparse populations up to 2e6 (6e7) taxa")
 def u_f_phased(ctx):
     _f_run(ctx, True)
 
